@@ -138,6 +138,29 @@ func c17RunSize(b core.Batch, r *core.Recorder) {
 	for _, s := range []string{"", "99999999999999999999T", "9223372036854775807B", "9223372036854775808B", "8388608T", "8388607T", "18446744073709551616K", "10Kxyz", "10KB", "10 K", "1e3K", "0x10K", "١K", "10K\n", "00010M", strings.Repeat("9", 40) + "G"} {
 		judge(s)
 	}
+	// products around and beyond the int64 / uint64 boundaries: digits x unit that wraps modulo 2^64 (to a
+	// negative or to an innocent-looking non-negative number) must be refused, the last representable one accepted
+	for _, u := range "BKMGT" {
+		unit := big.NewInt(c17units[byte(u)])
+		for _, sh := range []uint{62, 63, 64, 65, 66, 70} {
+			base := new(big.Int).Div(new(big.Int).Lsh(big.NewInt(1), sh), unit)
+			for _, mul := range []int64{1, 3, 5} {
+				for d := int64(-2); d <= 2; d++ {
+					n := new(big.Int).Add(new(big.Int).Mul(base, big.NewInt(mul)), big.NewInt(d))
+					if n.Sign() > 0 {
+						judge(n.String() + string(u))
+					}
+				}
+			}
+		}
+		for i := 0; i < b.Int("wrap", 400); i++ {
+			// n·unit = 2^64·k + small: wraps to a small non-negative value
+			k := big.NewInt(rng.Int64N(1<<16) + 1)
+			prod := new(big.Int).Add(new(big.Int).Lsh(k, 64), new(big.Int).Mul(unit, big.NewInt(rng.Int64N(1<<20))))
+			judge(new(big.Int).Div(prod, unit).String() + string(u))
+			judge(new(big.Int).Add(new(big.Int).Lsh(big.NewInt(1), 63), big.NewInt(rng.Int64N(1<<62))).String() + string(u))
+		}
+	}
 	r.Sample(map[string]any{"part": "bytesize", "roundtrip_values": len(vals), "alphabet": alpha, "depth": depth})
 }
 
